@@ -670,14 +670,14 @@ def rule_m4(repo, res):
     dal = dict_aliases(repo)
     getters = {a for a, m in dal.items() if m == "__getitem__"} | {"dict.__getitem__"}
     ci = repo.cls(CONTAINER)
-    from .inline import inlined
+    from .inline import inline_all
 
     class _M(dict):
         """methods of the container with thin helpers (module-level or of the class) read in place"""
         def __missing__(self, k):
             if k not in ci.methods:
                 raise AnalysisError(f"anchor vanished: method {CONTAINER}.{k}")
-            self[k] = inlined(repo, CONTAINER, ci.methods[k], module=ci.module.name)
+            self[k] = inline_all(repo, CONTAINER, ci.methods[k], module=ci.module.name)
             return self[k]
 
         def get(self, k, default=None):
